@@ -190,7 +190,7 @@ def run(cx):
         vloc = None
         if c4:
             t = cx.true_returns(c4)
-            ok = len(t) == 1 and bool(re.search(r'^lt\(cast<usize>\(arg2\),\^', t[0].term))
+            ok = len(t) == 1 and bool(re.search(r'^lt\(cast<usize>\(arg2\),BinDecoder::index\(phi\(\^arg1\|BinDecoder::clone\(', t[0].term))
             cx.check('C01.G1', ok, c4.path, 'ret', 'pointer-strictly-before-name-start', '; '.join(s.term[:120] for s in t), t[0].loc if t else '')
             # which local of read_inner does the closure capture?
             site = cx.prog.closure_site(c4.path)
